@@ -122,7 +122,7 @@ def handlers : List (String × Handler) := [
     let allowMissing ← getBool j "allow_missing"
     let chan ← getOptInt j "chan"
     let lut : Except ErrKind (List LutRow) ←
-      if full then pure (tiledFullLut (← getOptChannels j "channels") th tw rows cols)
+      if full then pure (tiledFullLut (← getOptChannels j "channels") (match getInt j "planes" with | .ok p => p | .error _ => 1) th tw rows cols)
       else pure (.ok (← getLut j "lut"))
     let reqs ← getReqs j "requests"
     match lut with
